@@ -118,10 +118,11 @@ Definition result_match (log : list event) (o : obs observed) (m : outcome resul
   | _, _ => false
   end.
 
-(** what the search may return (not its optimality): bitmaps of the right lengths,
-    balanced, the reported distance is the distance of the bitmaps, at most
-    |amount difference| + DisabledEventsMaxDistance recorded events disabled, and
-    nothing disabled when the undisturbed pairing has distance 0 *)
+(** what the search may return: bitmaps of the right lengths, balanced, the reported
+    distance is the distance of the bitmaps, at most |amount difference| +
+    DisabledEventsMaxDistance recorded events disabled, nothing disabled when the
+    undisturbed pairing has distance 0, and - its optimality - the result is one of
+    [search_results]: of minimal distance in the space the phases enumerate *)
 Definition search_ok (cs : list sim_ev) (es : list event) (maxdist : Z) (de dc : list bool) (dist : Z) : bool :=
   (length de =? length es)%nat && (length dc =? length cs)%nat
   && (length es - count_true de =? length cs - count_true dc)%nat
@@ -132,13 +133,31 @@ Definition search_ok (cs : list sim_ev) (es : list event) (maxdist : Z) (de dc :
            | Ok 0 => (count_true de =? 0)%nat && (count_true dc =? 0)%nat && (dist =? 0)
            | _ => negb (dist =? 0)
            end
-      else negb (dist =? 0)).
+      else negb (dist =? 0))
+  (* ... and it is one of the results of the set-level search: bitmaps of the search space
+     whose distance is minimal there *)
+  && existsb (fun r => (fst r =? dist) && list_eqb Bool.eqb (fst (snd r)) de && list_eqb Bool.eqb (snd (snd r)) dc)
+             (search_results es cs maxdist).
+
+(** the bitmaps are the ones of a result of the set-level search *)
+Definition search_member (es : list event) (cs : list sim_ev) (maxdist : Z) (o : bitmaps) : bool :=
+  existsb (fun r => list_eqb Bool.eqb (fst (snd r)) (fst o) && list_eqb Bool.eqb (snd (snd r)) (snd o))
+          (search_results es cs maxdist).
 
 Definition check (c : case) : bool :=
   match c with
   | CRepro b recorded alg st P oracle hp r =>
       result_match (match recorded with Some l => l | None => [] end) r
         (reproduce (hp_of hp) P (b_isz b) (b_regs b) (b_cmds b) (b_evlog b) recorded alg st oracle)
+      (* a returned result was built from bitmaps the search may return: optimal in its space *)
+      && match r, recorded with
+         | OOk _, Some log =>
+             match sim_align (b_cmds b) (b_evlog b) 0 alg, filterEvents log 0 alg with
+             | Ok sims, Ok es => search_member es (map snd sims) (st_max_disabled st) oracle
+             | _, _ => true
+             end
+         | _, _ => true
+         end
   | CDist cs es r => obs_match Z.eqb r (distance cs es 0)
   | CSearch cs es maxdist de dc dist => search_ok cs es maxdist de dc dist
   end.
